@@ -7,6 +7,7 @@ import (
 	"go/ast"
 	"go/constant"
 	"go/token"
+	"go/types"
 	"os"
 	"sort"
 	"strings"
@@ -296,6 +297,9 @@ func (st *gtState) methodDiverges(g *gen, dir, key string, depth int) bool {
 }
 
 func (tr *gtTr) stmt(s ast.Stmt, env *venv, next cont) gnode {
+	if ss, ok := tr.hoistMutCall(s, env); ok {
+		return tr.block(ss, env, next)
+	}
 	switch x := s.(type) {
 	case *ast.EmptyStmt:
 		return next(env)
@@ -381,8 +385,33 @@ func (tr *gtTr) stmt(s ast.Stmt, env *venv, next cont) gnode {
 		gtFail("expression statement %s (a call with effects) is outside the subset", gtExprText(x.X))
 	case *ast.DeclStmt:
 		gd, ok := x.Decl.(*ast.GenDecl)
+		if ok && gd.Tok == token.CONST {
+			// a local constant: the name stands for its value (an untyped constant stays untyped), no binding is emitted
+			for _, sp := range gd.Specs {
+				vs := sp.(*ast.ValueSpec)
+				if len(vs.Values) != len(vs.Names) {
+					gtFail("local const without a value of its own (iota list) is outside the subset")
+				}
+				for i, n := range vs.Names {
+					v := tr.expr(vs.Values[i], env)
+					if v.k == nil || len(v.binds) > 0 {
+						gtFail("local const %s is not a constant the translator evaluates", n.Name)
+					}
+					if vs.Type != nil {
+						v = tr.coerce(v, tr.g.resolveType(tr.p, tr.f, vs.Type, 0), "const "+n.Name)
+						if v.k == nil {
+							gtFail("local const %s is not a constant the translator evaluates", n.Name)
+						}
+					}
+					if n.Name != "_" {
+						env.declare(n.Name, &gvar{coq: tr.newName(n.Name), typ: v.typ, goName: n.Name, known: v.k})
+					}
+				}
+			}
+			return next(env)
+		}
 		if !ok || gd.Tok != token.VAR {
-			gtFail("local declaration other than var is outside the subset")
+			gtFail("local declaration other than var or const is outside the subset")
 		}
 		var pairs []struct {
 			name string
@@ -1065,6 +1094,9 @@ func singleIfReturn(b *ast.BlockStmt) (*ast.IfStmt, *ast.ReturnStmt) {
 
 // first-match search:  for _, x := range xs { if cond { return e } }
 func (tr *gtTr) rangeStmt(x *ast.RangeStmt, env *venv, next cont) gnode {
+	if rs := tr.asValueRange(x, env); rs != nil {
+		x = rs
+	}
 	if !isFirstMatchRange(x) {
 		return tr.generalRange(x, env, next)
 	}
@@ -1092,6 +1124,9 @@ func (tr *gtTr) rangeStmt(x *ast.RangeStmt, env *venv, next cont) gnode {
 // for i := 0; i < len(s); i++ { if cond(s[i]) { return e } }
 func (tr *gtTr) forStmt(x *ast.ForStmt, env *venv, next cont) gnode {
 	if !isFirstMatchFor(x) {
+		if rs := tr.asRange(x, env); rs != nil {
+			return tr.generalRange(rs, env, next)
+		}
 		return tr.generalFor(x, env, next)
 	}
 	bad := func() { gtFail("for loop is not `for i := 0; i < len(s); i++ { if cond { return ... } }`") }
@@ -1276,6 +1311,8 @@ type gtCfg struct {
 	fuel      map[int]string // loop number (source order, from 1) -> Go expression over what is in scope at the loop: iterations + 1 at most
 	ignore    []string       // calls (as statements) of these package functions are skipped: hooks without a body in the build under check
 	litsOf    []string       // fragment: the constant string arguments of every call of a method with one of these names, in source order (a list)
+	alts      []string       // lookup items: other names the table / function may have
+	sig       string         // lookup items: the signature "func(K) V" of a function that may replace the table
 }
 
 type gtState struct {
@@ -1354,8 +1391,16 @@ func (st *gtState) translateCfg(g *gen, dir, key string, cfg *gtCfg, caller *gtF
 		return fn
 	}
 	st.pending = append(st.pending, fn.text)
+	if caller != nil && !gtItemKeys[full] {
+		// a helper that only other translated functions call (it may be split off, renamed or inlined by a refactoring:
+		// no lemma names it): proofs open it with `autounfold with src_helpers`
+		st.pending = append(st.pending, fmt.Sprintf("#[global] Hint Unfold %s : src_helpers.\n", fn.coqName))
+	}
 	return fn
 }
+
+// gtItemKeys: the functions listed in gotrans_apply.go (dir:key), i.e. those with a lemma of their own
+var gtItemKeys = map[string]bool{}
 
 func (st *gtState) translateFn(g *gen, dir, key string, fn *gtFn, cfg *gtCfg) {
 	p := g.gtPkg(dir)
@@ -1673,6 +1718,7 @@ func (st *gtState) translateFn(g *gen, dir, key string, fn *gtFn, cfg *gtCfg) {
 			// a parameter of a type outside the subset: legal as long as the body never uses it
 		}
 	}
+	explicit := append([]string{}, binders...)
 	binders = append(fn.implicitBinders(), binders...)
 	var rts []string
 	for _, m := range fn.muts {
@@ -1695,6 +1741,35 @@ func (st *gtState) translateFn(g *gen, dir, key string, fn *gtFn, cfg *gtCfg) {
 		bs = " " + bs
 	}
 	fmt.Fprintf(&sb, "Definition %s%s : %s :=\n  %s.\n", fn.coqName, bs, rt, render(node, boolInt(fn.partial), "  "))
+	// The value operations a function happens to use are not part of its interface: `isInt(x)` rewritten as
+	// `_, ok := x.(data.Int)` drops val_kind.  A function over data.Value is therefore ALSO emitted with the whole
+	// value vocabulary as parameters, in the fixed order of valueParamOrder (<name>_V); lemmas are stated about that.
+	if fn.usesV {
+		var vb, va []string
+		vb = append(vb, "(V : Type)")
+		va = append(va, "V")
+		for _, vp := range valueParamOrder {
+			vb = append(vb, "("+vp.name+" : "+vp.typ+")")
+			if fn.valueParams[vp.name] {
+				va = append(va, vp.name)
+			}
+		}
+		for _, pr := range predOrder {
+			if fn.preds[pr] {
+				vb = append(vb, "("+pr+" : Z -> bool)")
+				va = append(va, pr)
+			}
+		}
+		for _, a := range fn.abstracts {
+			vb = append(vb, "("+a.name+" : "+a.typ+")")
+			va = append(va, a.name)
+		}
+		for _, b := range explicit {
+			vb = append(vb, b)
+			va = append(va, strings.TrimPrefix(strings.SplitN(b, " : ", 2)[0], "("))
+		}
+		fmt.Fprintf(&sb, "Definition %s_V %s : %s :=\n  %s %s.\n", fn.coqName, strings.Join(vb, " "), rt, fn.coqName, strings.Join(va, " "))
+	}
 	fn.text = sb.String()
 }
 
@@ -1970,6 +2045,7 @@ func assignedElsewhere(p *gpkg, name string) bool {
 const gtPrelude = `(* gotrans: what the translated Go functions below are written over.
    Integers are Z; + - * << on a typed integer carry the wrap of its type; a partial
    operation (index out of range, panic) makes the enclosing function return an option. *)
+Create HintDb src_helpers.
 Definition go_bind {A B : Type} (x : option A) (f : A -> option B) : option B :=
   match x with Some a => f a | None => None end.
 Definition go_wrap_u (bits x : Z) : Z := Z.modulo x (Z.pow 2%Z bits).
@@ -2044,6 +2120,11 @@ type gtItem struct {
 
 // gtFamily registers one generator that translates the listed functions (and, before them, whatever they call).
 func gtFamily(name string, items []gtItem) {
+	for _, it := range items {
+		if it.cfg == nil || it.cfg.suffix == "" {
+			gtItemKeys[it.dir+":"+it.key] = true
+		}
+	}
 	register(name, func(g *gen) {
 		st := g.gtState()
 		st.family = name
@@ -2117,6 +2198,10 @@ func gtFamily(name string, items []gtItem) {
 					fn = &gtFn{status: 2, coqName: name}
 					return
 				}
+				if strings.HasPrefix(it.key, "lookup:") {
+					fn = st.lookupByRole(g, it)
+					return
+				}
 				if strings.HasPrefix(it.key, "var:") {
 					p := g.gtPkg(it.dir)
 					if _, ok := p.vars[it.key[4:]]; !ok {
@@ -2155,12 +2240,98 @@ func gtFamily(name string, items []gtItem) {
 	})
 }
 
+// lookupByRole: an integer-keyed, integer-valued lookup that the source writes EITHER as a package-level map literal
+// (m[k], a missing key reads as 0) OR as a total function of the key (a switch): whichever is there is translated
+// under its own name, and the item itself is the function of the key
+//
+//	Definition src_<pkg>_<name>_at (k : Z) : Z
+//
+// in both cases, so that the lemma about it is stated once.  The table / function is looked for under the item's
+// name, then under cfg.alts, then as the only top-level function of the package with the signature cfg.sig.
+func (st *gtState) lookupByRole(g *gen, it gtItem) *gtFn {
+	p := g.gtPkg(it.dir)
+	name := it.key[7:]
+	at := "src_" + p.name + "_" + name + "_at"
+	names := []string{name}
+	if it.cfg != nil {
+		names = append(names, it.cfg.alts...)
+	}
+	for _, n := range names {
+		if _, ok := p.vars[n]; ok {
+			tname, t := st.mapTable(g, p, n, nil)
+			if t.kind != kMap || t.key.kind != kInt || t.elem.kind != kInt {
+				gtFail("package variable %s is not an integer-keyed table of integers", n)
+			}
+			st.pending = append(st.pending, fmt.Sprintf("(* %s: %s[k], a missing key reads as 0 *)\nDefinition %s (k : Z) : Z := go_lookup_z k %s 0%%Z.\n", p.dir, n, at, tname))
+			return &gtFn{status: 2, coqName: at}
+		}
+	}
+	var cands []string
+	for _, n := range names {
+		if fd := p.funcs[n]; fd != nil && fd.Recv == nil {
+			cands = append(cands, n)
+		}
+	}
+	if len(cands) == 0 && it.cfg != nil && it.cfg.sig != "" {
+		for n, fd := range p.funcs {
+			if fd.Recv == nil && fd.Body != nil && strings.ReplaceAll(gtTypeText(fd.Type), " ", "") == strings.ReplaceAll(it.cfg.sig, " ", "") {
+				cands = append(cands, n)
+			}
+		}
+		sort.Strings(cands)
+	}
+	if len(cands) != 1 {
+		gtFail("neither a package variable %s nor exactly one function in its role found (candidates: %v)", name, cands)
+	}
+	fn := st.translateCfg(g, it.dir, cands[0], nil, nil)
+	if fn.status != 2 {
+		gtFail("%s", fn.err)
+	}
+	if fn.partial || len(fn.muts) > 0 || len(fn.params) != 1 || len(fn.results) != 1 || fn.results[0].kind != kInt || fn.usesV || len(fn.abstracts) > 0 || len(fn.preds) > 0 {
+		gtFail("function %s in the role of the table %s is not a total function from an integer to an integer", cands[0], name)
+	}
+	st.pending = append(st.pending, fmt.Sprintf("(* %s: %s(k) in the role of the table %s *)\nDefinition %s (k : Z) : Z := %s k.\n", p.dir, cands[0], name, at, fn.coqName))
+	return &gtFn{status: 2, coqName: at}
+}
+
+// gtTypeText: a function type as "func(K) V" (parameter names dropped)
+func gtTypeText(ft *ast.FuncType) string {
+	var ps, rs []string
+	for _, f := range ft.Params.List {
+		n := len(f.Names)
+		if n == 0 {
+			n = 1
+		}
+		for i := 0; i < n; i++ {
+			ps = append(ps, types.ExprString(f.Type))
+		}
+	}
+	if ft.Results != nil {
+		for _, f := range ft.Results.List {
+			n := len(f.Names)
+			if n == 0 {
+				n = 1
+			}
+			for i := 0; i < n; i++ {
+				rs = append(rs, types.ExprString(f.Type))
+			}
+		}
+	}
+	r := strings.Join(rs, ",")
+	if len(rs) > 1 {
+		r = "(" + r + ")"
+	}
+	return "func(" + strings.Join(ps, ",") + ")" + r
+}
+
 // gtItemName: the Coq identifier an item defines.
 func gtItemName(g *gen, it gtItem) string {
 	p := g.gtPkg(it.dir)
 	switch {
 	case strings.HasPrefix(it.key, "var:"):
 		return "src_" + p.name + "_" + it.key[4:]
+	case strings.HasPrefix(it.key, "lookup:"):
+		return "src_" + p.name + "_" + it.key[7:] + "_at"
 	case strings.HasPrefix(it.key, "const:"):
 		return "src_" + p.name + "_" + it.key[6:]
 	}
